@@ -33,6 +33,13 @@ def configs(tier):
     out.append((ac, dict(W=2, T=1, driver='call_and_wait', menu=MENU, push=push)))
     out.append((ac, dict(W=2, T=1, bad=0, driver='call_and_wait', menu=MENU,
                          push=push)))
+    # a task that cannot even be sent (client-side submission failure)
+    for drv in ('as_completed', 'run', 'call_and_wait'):
+      out.append((ac, dict(W=2, T=2 if drv != 'call_and_wait' else 1, bad=0,
+                           bad_kind='unpicklable', driver=drv, menu=MENU,
+                           push=push)))
+    out.append((ac, dict(W=2, T=3, bad=1, bad_kind='unpicklable', ignore=True,
+                         menu=MENU, push=push)))
   return out
 
 
